@@ -6,7 +6,25 @@ ROOT = os.path.dirname(os.path.dirname(os.path.abspath(__file__)))
 PROOF = "proof"
 ENG_NOTE = 'Trusted: Coq kernel; T1 translator (harness/cmd/xlate, go/ast) reporting the statement shapes of engine/gengine.go (unknown shapes become IUnknown, cross-checked by trace acceptance against the generated skeleton); sync.WaitGroup/Mutex and the go statement per the Go memory model (a parallel stage = all interleavings of its children, joined before the next stage); rules abstracted to schedule-independent outcomes (fails / returns / sets stop tag), true of the observer rules and justified in general by C02/C15; gate adversary quiet period (timing can hide a missing barrier from one round, never invent one). No axioms.'
 ENG_TECH = 'Coq proof over an IR regenerated from engine/gengine.go by a go/ast translator (per-run obligation gen = hand, then hand_sound: run_prog = spec for every configuration; traces quantify over all interleavings) + trace/err/result correspondence under a gate adversary evaluated inside Coq'
+POOL_NOTE = 'Trusted: Coq kernel; T3 translator (harness/cmd/xlate pool.go, go/ast) reporting the statement shapes of engine/gengine_pool.go; sync.Mutex / the go statement per the Go memory model; the pool harness (reflection snapshots, gates, globally sequenced events) and python scenario generator; liveness needs a fair scheduler (assumption). No axioms.'
+POOL_TECH = 'Coq proof (transition-system invariants by induction over all action sequences / histories) + go/ast translator obligations (wrapper and update shapes) + scenario correspondence with gate-held requests evaluated inside Coq'
 CLAIMS = {
+ "C06": {
+  "text": "Theorems (Props/C06.v, 6, closed): over EVERY sequence of atomic pool steps (Get / Inject / Done / async Put) by any number of clients, request data in an instance belongs to the request holding it, a request resolves only its own data (plus the shared api table), nothing of a request is left once its deferred clean-up ran, idle instances are clean, a later request on the same instance sees nothing. Tie: T3 (every one of the 24 wrappers: cleared test, prepare, deferred [delete exactly the injected keys; release] registered before the single engine call, hands back that engine's map) + 21 scenarios (all 24 wrapper methods, pools (1,2),(2,3),(2,5)) with max requests held inside rules while every instance's data context is read by reflection; echo values and result maps re-read at the end.",
+  "note": POOL_NOTE,
+  "technique": POOL_TECH},
+ "C07": {
+  "text": "Theorems (Props/C07.v, 6, closed): for every well-formed history of updates (atomic installs under one lock, increasing versions) and executions (one snapshot between begin and end), an execution observes exactly one installed version; it is >= every update that returned before the execution began and < every update that began after it ended. Tie: T3 (prepare takes one snapshot of the instance's container under updateLock into a request-private builder; the management methods hold updateLock throughout, publish to all instances, never store into a field of a published container) + 84 scenarios: 14 entry-point shapes x {full, incremental, removal} x {update from inside the first-stage rule, update while that rule is held}, then max simultaneous executions on every instance; per-execution version checks inside Coq.",
+  "note": POOL_NOTE,
+  "technique": POOL_TECH},
+ "C16": {
+  "text": 'Theorems (Props/C16.v, 10, closed): for ANY sequence of full/incremental updates, removals, clears, model changes and non-compiling texts, the master copy and EVERY instance hold exactly the denoted rule set (invariant of C08 each), cleared flag and model as denoted, queries agree, failed operations change nothing, clear followed by full or incremental update restores service. Tie: T3 update shapes + 42 histories (all sequences of length <= 2 over 5 operation kinds + random), after every operation: master and per-instance containers by reflection, all queries, and an execution forced onto every instance (max held requests).',
+  "note": POOL_NOTE,
+  "technique": POOL_TECH},
+ "C17": {
+  "text": 'Theorems (Props/C17.v, 12, closed): over every sequence of atomic pool steps: free ++ additional ++ in-use ++ pending-put is a permutation of 0..max-1 (no instance lost or duplicated), at most max in flight, no instance given to two requests, Get enabled iff an instance is free (waiters wait, never fail), release always enabled after Get whatever the rules did, a put makes an instance available, a quiescent pool is full. Tie: T3 (release in a deferred function of every wrapper) + scenarios on pools (1,2),(2,3),(3,8) with max held requests, queued waiters, failing and panicking rules, two rounds; conservation and max-simultaneous checks inside Coq.',
+  "note": POOL_NOTE,
+  "technique": POOL_TECH},
  "C04": {
   "text": 'Theorems (Props/C04.v, 8, closed): for every rule list, failing set and flag, every trace of Execute is exactly the S/E sequence of all rules (continue-on-error) or of the prefix ending with the first failing rule (stop-on-error), error iff some rule failed; the executed sequence is non-increasing in salience when the installed list is (C08 invariant); the sorted selected variants run a stable descending sort of the selection. Proved for the hand skeletons (Engine/Sound.v hand_sound: run_prog (hand e) c = spec_outcome e c for all 21 entry points and ALL configurations); tied to /repo on every run by T1 (gen/Gen_Engine.v regenerated from engine/gengine.go; obligation gen e = hand e, obligations/GenEngineOk.v re-proves gen_sound) and by running ~350 calls whose traces, error flags and result maps are accepted inside Coq (Engine/Check.v).',
   "note": ENG_NOTE,
